@@ -207,10 +207,16 @@ func (v *VecDense) CloneFromVec(a Vector) {
 		return
 	}
 	n := a.Len()
+	data := v.mat.Data
+	if !v.IsEmpty() && (v.mat.Inc != 1 || len(data) < n) {
+		// Do not write between the elements of a strided view
+		// or past the end of the receiver's own elements.
+		data = nil
+	}
 	v.mat = blas64.Vector{
 		N:    n,
 		Inc:  1,
-		Data: use(v.mat.Data, n),
+		Data: use(data, n),
 	}
 	if r, ok := a.(RawVectorer); ok {
 		blas64.Copy(r.RawVector(), v.mat)
